@@ -9,46 +9,51 @@
 (* The real printer is judged through LabelToMask only:                    *)
 (*     LabelToMask(printed label, defs) = mask  /\  recompiled byte = mask *)
 (* One TLC state per (row, mask).  Rows whose definition set binds one     *)
-(* name to two bits (dup = TRUE, DESIGN section 6 F7) are not part of the  *)
-(* invariant; their verdicts are written to OUT so that the driver can     *)
-(* report them under their own key.                                        *)
+(* name to two bits (dup = TRUE, DESIGN section 6 F7) are judged outside   *)
+(* the invariant: their verdicts are written to OUT so that the driver can *)
+(* report them under their own key (explain = TRUE does the same for a row *)
+(* in which the invariant was found violated, to obtain all its bad masks).*)
 (***************************************************************************)
 EXTENDS DiffMask, TLC, Json, IOUtils
 
 Rows == ndJsonDeserialize(IOEnv.ROWS)
-N == Len(Rows)
-Strict == {r \in 1..N : ~Rows[r].dup}
-Dups == {r \in 1..N : Rows[r].dup}
+\* rows kept out of the invariant: duplicate-name definition sets, and rows the driver wants explained
+Outside(row) == row.dup \/ row.explain
 
 \* the mask the printed statement denotes: its label read by the specification, or "everything"
 \* when the statement was printed without a label
-Denoted(row, t, m) ==
-    IF row.has_label[m + 1] THEN TLabelToMask(row.labels[m + 1], t)
-    ELSE [ok |-> TRUE, mask |-> NoLabelMask]
+Denoted(has, label, t) == IF has THEN TLabelToMask(label, t) ELSE [ok |-> TRUE, mask |-> NoLabelMask]
+MaskOk(has, label, reparsed, t, mm) ==
+    /\ Denoted(has, label, t) = [ok |-> TRUE, mask |-> BitsOf(mm)]
+    /\ reparsed = mm
+RowOk(row, t, mm) == MaskOk(row.has_label[mm + 1], row.labels[mm + 1], row.reparsed[mm + 1], t, mm)
 
-RowOk(row, t, m) ==
-    /\ Denoted(row, t, m) = [ok |-> TRUE, mask |-> BitsOf(m)]
-    /\ row.reparsed[m + 1] = m
-
-VARIABLES r, m, tab
-vars == <<r, m, tab>>
-Init == r \in Strict /\ m = -1 /\ tab = TableOf(Rows[r].defs)
-Next == m = -1 /\ m' \in 0..255 /\ UNCHANGED <<r, tab>>
+\* State graph: a root holding the rows (mentioned once), one state per row with its flag table,
+\* one state per (row, mask byte) holding just that mask's observation.
+VARIABLES lvl, all, id, tab, m, obs
+vars == <<lvl, all, id, tab, m, obs>>
+None == [has |-> FALSE, label |-> << >>, reparsed |-> -1]
+Init == lvl = 0 /\ all = SelectSeq(Rows, LAMBDA row : ~Outside(row)) /\ id = 0 /\ tab = << >> /\ m = -1 /\ obs = None
+Next == \/ /\ lvl = 0 /\ lvl' = 1 /\ m' = -1 /\ obs' = None
+           /\ \E j \in 1..Len(all) : all' = << all[j] >> /\ id' = all[j].id /\ tab' = TableOf(all[j].defs)
+        \/ /\ lvl = 1 /\ lvl' = 2 /\ all' = << >> /\ UNCHANGED <<id, tab>>
+           /\ \E mm \in 0..255 : m' = mm /\ obs' = [has |-> all[1].has_label[mm + 1], label |-> all[1].labels[mm + 1],
+                                                         reparsed |-> all[1].reparsed[mm + 1]]
 Spec == Init /\ [][Next]_vars
 
-Bijection == m >= 0 => RowOk(Rows[r], tab, m)
-\* the flag table the specification derives is the one the row was produced under: the row's
-\* definitions are well-formed exactly when the generator said so
-Classified == m = -1 => ~THasDuplicateName(tab)
+Bijection == lvl = 2 => MaskOk(obs.has, obs.label, obs.reparsed, tab, m)
+\* the definition sets inside the invariant are well-formed (the generator's classification is the
+\* one this module derives)
+Classified == lvl = 1 => ~THasDuplicateName(tab)
 
-\* verdicts for the duplicate-name rows (few): the masks that do not come back
-DupVerdict(k) ==
-    LET row == Rows[k]
-        t == TableOf(row.defs)
+\* verdicts for the rows outside the invariant (few): the masks that do not come back
+Verdict(row) ==
+    LET t == TableOf(row.defs)
         bad == SelectSeq(<< >> \o [j \in 1..256 |-> j - 1], LAMBDA mm : ~RowOk(row, t, mm))
-    IN [id |-> row.id, dup |-> THasDuplicateName(t), nbad |-> Len(bad),
-        first |-> IF Len(bad) = 0 THEN -1 ELSE bad[1]]
-DupSeq == SelectSeq(<< >> \o [k \in 1..N |-> k], LAMBDA k : k \in Dups)
-ASSUME ndJsonSerialize(IOEnv.OUT, << >> \o [j \in 1..Len(DupSeq) |-> DupVerdict(DupSeq[j])])
-ASSUME PrintT(<<"CHECK", "Check_DiffMask", N, Cardinality(Strict), Cardinality(Dups)>>)
+        badrep == SelectSeq(<< >> \o [j \in 1..256 |-> j - 1], LAMBDA mm : row.reparsed[mm + 1] # mm)
+    IN [id |-> row.id, dup |-> THasDuplicateName(t), nbad |-> Len(bad), bad |-> SubSeq(bad, 1, IF Len(bad) < 4 THEN Len(bad) ELSE 4),
+        nrecompiled |-> Len(badrep), recompiled |-> SubSeq(badrep, 1, IF Len(badrep) < 4 THEN Len(badrep) ELSE 4)]
+ASSUME LET out == SelectSeq(Rows, Outside) IN
+       /\ ndJsonSerialize(IOEnv.OUT, << >> \o [j \in 1..Len(out) |-> Verdict(out[j])])
+       /\ PrintT(<<"CHECK", "Check_DiffMask", Len(Rows), Len(out)>>)
 =============================================================================
